@@ -20,16 +20,18 @@ def run(tier, runner):
     r_cd = lifetime.check_dom(progs + real)
     ob = lifetime.obligations([p for p in progs if p.meta.get('elem') != 'NTRtm'])
     r_cf = ownership.check_first(progs + real)
+    r_ew = shape.exact_who(progs + real, all_entries=True)
+    r_ew.require(20, 'public members of the vectors other than reserve / shrink_to_fit')
     r_cf.require(10, 'operations that test the capacity limit themselves')
     r_cd.require(15, 'constructs into container storage')
     r_tt.require(4, 'throw expressions of the vector headers')
     r_w.require(16, 'capacity requests')
     return {
-        'results': [r_tt, r_w, r_geo, r_cd, r_cf, ob['TEMP']],
+        'results': [r_tt, r_w, r_geo, r_cd, r_cf, r_ew, ob['TEMP']],
         'explanation': 'THROW-TYPE: the only throw expressions of the vector headers are the fixed-capacity check (out_of_range, exactly when the request '
                        'exceeds the capacity), SafeNextCapacity and swap_sizetype (overflow_error) and at() (out_of_range exactly when idx >= size()).  '
                        'WIDEN: every size handed to a capacity check / grow is computed in a type wider than size_type or in 64 bits, per size_type '
-                       'archetype, from the type of the instantiated expression.  GEO: SafeNextCapacity clamps at size_type max and throws before any effect.  CHECK-FIRST: in every operation that tests the limit itself the test precedes the first modification of the container on every path (path-sensitive typestate over the structured body).',
+                       'archetype, from the type of the instantiated expression.  GEO: SafeNextCapacity clamps at size_type max and throws before any effect.  EXACT-WHO: the exact path of SafeNextCapacity has no overflow test (its only caller, reserve, takes a size_type); no element-adding operation - whose request is computed in uintmax_t - reaches a capacity request with exact = true.  CHECK-FIRST: in every operation that tests the limit itself the test precedes the first modification of the container on every path (path-sensitive typestate over the structured body).',
         'assumptions': ['"contents exactly as before" is decided in its structural form: the limit check dominates every mutation (CHECK-DOM) and no temporary is leaked when it throws (TEMP)'],
         'trusted': ['clang 14 expression typing (integral promotion) in the instantiation', 'the amcsa plugin export'],
     }
